@@ -273,6 +273,7 @@ def main():
         'broken': broken,
         'known_findings_hit': sorted(known_hit),
         'notes': ctx.notes,
+        'repo_state': repo_state(),
     }
     common.write_evidence(pid, tier, seed, coverage, sw.s(), len(new_violations),
                           list(getattr(mod, 'ASSUMPTIONS', [])))
@@ -280,6 +281,18 @@ def main():
           f'evaluations={ctx.evaluations} distinct={len(ctx.distinct)} mismatches={len(ctx.mismatches)} '
           f'violations={len(new_violations)} known={len(known_hit)} wall={sw.s():.1f}s exit={exit_code}')
     return exit_code
+
+
+def repo_state():
+    """Which tree was checked: commit and whether the working tree differs from it (checks always run on the working tree)."""
+    import subprocess
+    try:
+        head = subprocess.run(['git', '-C', '/repo', 'rev-parse', '--short', 'HEAD'], capture_output=True, text=True, timeout=30).stdout.strip()
+        dirty = subprocess.run(['git', '-C', '/repo', 'status', '--porcelain', '--untracked-files=no'], capture_output=True, text=True,
+                               timeout=30).stdout.splitlines()
+        return {'head': head, 'modified_files': [ln[3:] for ln in dirty][:20]}
+    except Exception as e:  # noqa: BLE001
+        return {'head': None, 'error': type(e).__name__}
 
 
 if __name__ == '__main__':
